@@ -606,6 +606,13 @@ class Facts:
         self.renamed_fns, self.renamed_fields = canonicalise_names(j)
         self.inlined = inline_new_helpers(j)
         self.j = j
+        self.consts = {}
+        for c in j.get('consts', []):
+            if c.get('simple') and c.get('text', '').startswith('_0 = ') and ';' not in c['text']:
+                self.consts[norm(c['path'])] = c['text'][len('_0 = '):]
+        if j.get('crate') == 'kira':
+            from . import paths as _paths
+            _paths.CONSTS = self.consts
         self.nonce = j.get('nonce')
         self.crate = j['crate']
         self.overflow_checks = j['overflow_checks']
